@@ -16,10 +16,12 @@ FLOW_NOTE = "flow-level: the real ParseXMLResponse, parseResponse, validateReque
 CHECKS = {
     'C01': {
         'level_text': 'path exploration + z3 decide that ParseXMLResponse returns only an assertion of the document that is covered by a signature of a trusted key (its own, or the Response\'s) and never when the Response carries a signature of an untrusted key; counterexamples replayed natively on real signed XML.',
-        'level_note': FLOW_NOTE + 'Outside: XML-level wrapping that defeats goxmldsig itself, encrypted assertions (until registered), fingerprint / pinned-certificate trust modes (until registered).',
+        'level_note': FLOW_NOTE + 'Harness_C01_trust adds the fingerprint and pinned-certificate trust configurations and four KeyInfo layouts per signature (signer certificate, none, signer+other, other+signer; goxmldsig: the first KeyInfo certificate must be a root and is the verification key). Outside: XML-level wrapping that defeats goxmldsig itself, encrypted assertions on the SP side.',
         'harnesses': [
             {'name': 'Harness_C01_flow', 'pkg': 'saml', 'replay': 'direct', 'must_reach': ['accepted', 'rejected', 'accepted-by-response-signature', 'accepted-by-assertion-signature'],
              'opts': {'time_res': 1000000}, 'quick': {'K': 1, 'params': {'assertions.max': 2}}, 'thorough': {'K': 1, 'params': {'assertions.max': 3}}},
+            {'name': 'Harness_C01_trust', 'pkg': 'saml', 'replay': 'direct', 'must_reach': ['accepted', 'rejected', 'accepted-by-fingerprint', 'accepted-by-pinned-certificate'],
+             'validate_labels': ['accepted', 'accepted-by-fingerprint', 'accepted-by-pinned-certificate'], 'opts': {'time_res': 1000000, 'K': 1}},
         ],
     },
     'C02': {
@@ -145,6 +147,8 @@ CHECKS = {
         'harnesses': [
             {'name': 'Harness_C11_strip', 'pkg': 'xmlenc', 'replay': 'direct', 'must_reach': ['returned', 'stripped'],
              'quick': {'params': {'strip.maxlen': 18}}, 'thorough': {'params': {'strip.maxlen': 34}}},
+            {'name': 'Harness_C11_padding', 'pkg': 'xmlenc', 'replay': 'direct', 'must_reach': ['returned', 'rejected', 'decrypted'], 'validate_labels': ['rejected', 'decrypted'],
+             'opts': {'panic_is_violation': True}, 'quick': {'params': {'blocks.max': 2}}, 'thorough': {'params': {'blocks.max': 4}}},
             {'name': 'Harness_C11_block', 'pkg': 'xmlenc', 'replay': 'direct', 'must_reach': ['returned', 'rejected', 'decrypted'], 'validate_labels': ['rejected'],
              'opts': {'panic_is_violation': True}, 'quick': {'params': {'lengths.all': 0}}, 'thorough': {'params': {'lengths.all': 1}}},
             {'name': 'Harness_C11_rsa', 'pkg': 'xmlenc', 'replay': 'direct', 'must_reach': ['returned', 'rejected'], 'validate_labels': ['rejected'],
@@ -200,7 +204,7 @@ CHECKS = {
     },
     'C08': {
         'level_text': 'z3/path enumeration decides, for every layout of <=2 (quick) / <=3 (thorough) key descriptors x <=2 certificates (Use encryption/signing/omitted/other, arbitrary/empty/real certificate texts), that the encryption-certificate selector reports "no key" exactly when none is advertised, never panics and never turns a bad certificate into "no key"; replayed natively with real certificates.',
-        'level_note': 'real getSPEncryptionCert executed from SSA; base64 decode and x509.ParseCertificate are contract stubs (fail or opaque certificate; exact on the two real test certificates); at most one descriptor with use="encryption" (several are ambiguous: outside). Harness_C08_nodowngrade executes the real MakeAssertionEl, xmlenc RSA.Encrypt / CBC.Encrypt and Decrypt with uninterpreted crypto (inverse law under equal key/IV/hash): five metadata key layouts (none, encryption certificate, undecodable certificate, signing-only, use omitted). Outside: confidentiality of AES/RSA themselves; that no user string appears elsewhere in the form is argued structurally.',
+        'level_note': 'real getSPEncryptionCert executed from SSA; base64 decode and x509.ParseCertificate are contract stubs (fail or opaque certificate; exact on the two real test certificates); at most one descriptor with use="encryption" (several are ambiguous: outside). Harness_C08_nodowngrade executes the real MakeAssertionEl, xmlenc RSA.Encrypt / CBC.Encrypt and Decrypt with uninterpreted crypto (inverse law under equal key/IV/hash): six metadata key layouts (none, encryption certificate, undecodable certificate, signing-only, use omitted, encryption certificate with one of three EncryptionMethod lists). Outside: confidentiality of AES/RSA themselves; that no user string appears elsewhere in the form is argued structurally.',
         'harnesses': [
             {'name': 'Harness_C08_certselect', 'pkg': 'saml', 'replay': 'direct', 'must_reach': ['returned', 'advertised', 'nothing-advertised', 'real-cert-selected'],
              'opts': {'panic_is_violation': True}, 'validate_labels': ['nothing-advertised', 'real-cert-selected'],
